@@ -257,20 +257,6 @@ func newMnetEnv(variant int) *mnetEnv {
 	return e
 }
 
-// quiesce waits until every configuration update the server has received went through a push (the
-// forced push that follows a networks change clears the endpoint cache). Only the warmth of the
-// cache in the second generator pass depends on it, never a verdict.
-func (e *mnetEnv) quiesce() bool {
-	d := e.srv.Discovery
-	for i := 0; i < 5000; i++ {
-		if d.CommittedUpdates.Load() >= d.InboundUpdates.Load() {
-			return true
-		}
-		time.Sleep(time.Millisecond)
-	}
-	return false
-}
-
 func mnetLCM(a, b uint64) uint64 {
 	x, y := a, b
 	for y != 0 {
@@ -530,7 +516,8 @@ func runMnet(c *vh.Ctx) {
 				gwNets.Insert(g.Network)
 			}
 
-			// registry reports (wiping the registries also empties the endpoint cache)
+			// registry reports. Wiping a registry empties the endpoint cache the index shares with the generator
+			// (gen.go); in istiod the forced push that follows a networks change does the same.
 			idx := env.srv.Env().EndpointIndex
 			for sh := 0; sh < 3; sh++ {
 				idx.DeleteShard(shardKey(sh))
@@ -558,12 +545,9 @@ func runMnet(c *vh.Ctx) {
 					}
 				}
 			}
-			if !env.quiesce() {
-				c.Count("mnet_worlds_push_not_quiesced", 1)
-			}
 
 			push := env.srv.PushContext()
-			gen := env.srv.Discovery.Generators[v3.EndpointType]
+			gen := prodEDSGenerator(env.srv) // shares the index's cache, as in istiod (see gen.go)
 			st := &mnetStats{}
 			compared, gwEntries, gwLocalities, splitInexact := 0, 0, 0, 0
 			var sample map[string]any
@@ -583,9 +567,16 @@ func runMnet(c *vh.Ctx) {
 				}
 				got := map[string][]*endpoint.ClusterLoadAssignment{}
 				for pass := 0; pass < 2; pass++ {
-					res, _, err := gen.Generate(proxy, &model.WatchedResource{TypeUrl: v3.EndpointType, ResourceNames: names}, &model.PushRequest{Forced: true, Push: push})
+					// PushRequest.Start is only the cache token: the endpoint cache stores nothing for a request without a
+					// start time, and nothing older than its last invalidation. No verdict depends on it.
+					res, logd, err := gen.Generate(proxy, &model.WatchedResource{TypeUrl: v3.EndpointType, ResourceNames: names}, &model.PushRequest{Forced: true, Push: push, Start: time.Now()})
 					if err != nil {
 						vh.Abort("eds generate: %v", err)
+					}
+					// the generator reports how many assignments it took from the endpoint cache
+					if nCached, nAll, ok := cachedOf(logd); ok {
+						c.Count(fmt.Sprintf("mnet_generator_pass%d_assignments_from_cache", pass+1), nCached)
+						c.Count(fmt.Sprintf("mnet_generator_pass%d_assignments_built", pass+1), nAll-nCached)
 					}
 					for _, rsc := range res {
 						cla := &endpoint.ClusterLoadAssignment{}
